@@ -205,6 +205,9 @@ STREAM_TIE_MOD = "AioMySensors.Lemmas.StreamBodiesEq"
 # properties about the decoder: MessageSchema.load assembled from the generated validators must equal `decode`
 CODEC_TIE_PROPS = {"C01", "C02", "C03"}
 CODEC_TIE_MOD = "AioMySensors.Lemmas.CodecBodiesEq"
+# C18: the generated topic <-> line mapping must equal Mqtt.toTopic / Mqtt.toLine
+MQTT_TIE_PROPS = {"C18"}
+MQTT_TIE_MOD = "AioMySensors.Lemmas.MqttBodiesEq"
 
 
 def translate_bodies(force_snapshot: bool) -> str:
@@ -212,6 +215,7 @@ def translate_bodies(force_snapshot: bool) -> str:
            "--out", os.path.join(LEAN, "AioMySensors", "Generated", "Bodies.lean"),
            "--stream-out", os.path.join(LEAN, "AioMySensors", "Generated", "StreamBodies.lean"),
            "--codec-out", os.path.join(LEAN, "AioMySensors", "Generated", "CodecBodies.lean"),
+           "--mqtt-out", os.path.join(LEAN, "AioMySensors", "Generated", "MqttBodies.lean"),
            "--snapshot", os.path.join(VERIF, "tools", "bodies_snapshot.json"),
            "--json", os.path.join(VERIF, "tools", "bodies_status.json")]
     if force_snapshot:
@@ -331,22 +335,23 @@ def run(prop: str, tier: str, replay: str | None) -> int:
         tie = prop in TIE_PROPS
         stream_tie = prop in STREAM_TIE_PROPS
         codec_tie = prop in CODEC_TIE_PROPS
-        if tie or stream_tie or codec_tie:
+        mqtt_tie = prop in MQTT_TIE_PROPS
+        if tie or stream_tie or codec_tie or mqtt_tie:
             report["translation"] = translate_bodies(force_snapshot=False)
         # 2. build: the models (driver) first, then the property's theorems
         rc_m, out_m = sh(["lake", "build", "AioMySensors.Model"], cwd=LEAN)
         model_ok = rc_m == 0
         rc_p, out_p = sh(["lake", "build", prop_mod], cwd=LEAN)
         proofs_ok = rc_p == 0
-        if tie or stream_tie or codec_tie:
+        if tie or stream_tie or codec_tie or mqtt_tie:
             rc_b, out_b = sh(["lake", "build", "AioMySensors.Generated.Bodies", "AioMySensors.Generated.StreamBodies",
-                              "AioMySensors.Generated.CodecBodies"], cwd=LEAN)
+                              "AioMySensors.Generated.CodecBodies", "AioMySensors.Generated.MqttBodies"], cwd=LEAN)
             if rc_b != 0:
                 # the translation does not type-check: that is a limit of the translator, not a fact about the code;
                 # fall back to the committed translation and leave the tie to the correspondence run
                 report["translation"] = translate_bodies(force_snapshot=True) + " (fresh translation did not type-check: " \
                     + " ".join(out_b.split())[-300:] + ")"
-            for on, tmod in ((tie, TIE_MOD), (stream_tie, STREAM_TIE_MOD), (codec_tie, CODEC_TIE_MOD)):
+            for on, tmod in ((tie, TIE_MOD), (stream_tie, STREAM_TIE_MOD), (codec_tie, CODEC_TIE_MOD), (mqtt_tie, MQTT_TIE_MOD)):
                 if not on:
                     continue
                 rc_t, out_t = sh(["lake", "build", tmod], cwd=LEAN)
@@ -365,6 +370,8 @@ def run(prop: str, tier: str, replay: str | None) -> int:
         mods.append(STREAM_TIE_MOD)
     if codec_tie and CODEC_TIE_MOD not in mods:
         mods.append(CODEC_TIE_MOD)
+    if mqtt_tie and MQTT_TIE_MOD not in mods:
+        mods.append(MQTT_TIE_MOD)
     theorems = {}
     for m in mods:
         for name, a, b in theorem_spans(module_path(m)):
@@ -507,6 +514,8 @@ def run(prop: str, tier: str, replay: str | None) -> int:
         "extraction": report["extraction"],
         "body_translation": report.get("translation", "not used by this property"),
         "tie_search": report.get("tie_search", "not needed (every equality of BodiesEq checks)" if tie else "n/a"),
+        "mqtt_tie": ("MqttBodiesEq: the generated _parse_message_to_mqtt / _parse_mqtt_to_message equal Mqtt.toTopic / Mqtt.toLine"
+                     if mqtt_tie else "n/a"),
         "codec_tie": ("CodecBodiesEq.loadGen_eq: MessageSchema.load assembled from the generated validators = decode, "
                       "raising nothing but ValidationError" if codec_tie else "n/a"),
         "stream_tie": ("StreamBodiesEq: the generated StreamTransport methods equal Transport.connect/disconnect/read/write" if stream_tie else "n/a"),
